@@ -952,6 +952,93 @@ Definition inv_sideb (w : world) (sd : side) : bool :=
                        | None => true end) (seq 0 (nreal w)).
 Definition invb (w : world) : bool := inv_sideb w SIn && inv_sideb w SOut.
 
+(* ---------- caller-owned python lists ----------
+   The caller may keep the very list object it passes to a constructor (ins=feeds, outs=products), to a
+   slice assignment or to extend(), pass it again to another unit, and go on editing it.  The code reads
+   such an argument at the call and keeps nothing of it: the unit's port list is its own list.  So a history
+   carries a store of caller lists next to the world; an operation that takes list #k is the plain
+   operation applied to the contents list #k has at that moment, it leaves the store alone, and the
+   caller's own edits leave the world alone.  (The harness passes the same python list object again and
+   again and compares the store and every port list after every operation, so a port list that aliases a
+   caller's list, or another unit's, shows up.) *)
+Definition store := list (list item).
+Inductive xform := XF (f : form) | XV (k : nat).               (* a literal argument / the caller's list #k *)
+Inductive xop :=
+| XOp (o : op)
+| XNewUnit (nin nout : nat) (fin fout : bool) (fi fo : xform)   (* Unit(ins=<list k>, outs=...) *)
+| XSlice (sd : side) (u : nat) (lo hi : option Z) (k : nat)     (* L[lo:hi] = <list k> *)
+| XExtend (sd : side) (u : nat) (k : nat)                       (* L.extend(<list k>) *)
+| XCAppend (k : nat) (it : item)                                (* the caller: lst.append(x) *)
+| XCSet (k : nat) (i : nat) (it : item)                         (*             lst[i] = x    *)
+| XCPop (k : nat).                                              (*             lst.pop()     *)
+(* an element of a caller list as an argument: a stream, None, or a str (not a stream: TypeError in
+   _as_stream, AttributeError in extend) *)
+Definition item_arg (it : item) : arg :=
+  match it with IReal n => AObj (S_ n) | INone => ANone | INew => AJunk end.
+Definition clist_of (st : store) (k : nat) : list item := nth k st [].
+Definition xform_form (st : store) (f : xform) : form :=
+  match f with XF f => f | XV k => FList (clist_of st k) end.
+Definition to_op (st : store) (x : xop) : option op :=
+  match x with
+  | XOp o => Some o
+  | XNewUnit nin nout fin fout fi fo => Some (ONewUnit nin nout fin fout (xform_form st fi) (xform_form st fo))
+  | XSlice sd u lo hi k => Some (OSetSlice sd u lo hi (map item_arg (clist_of st k)))
+  | XExtend sd u k => Some (OExtend sd u (map item_arg (clist_of st k)))
+  | _ => None
+  end.
+Fixpoint upd_store (st : store) (k : nat) (l : list item) : store :=
+  match st, k with
+  | [], _ => []
+  | _ :: t, O => l :: t
+  | h :: t, S j => h :: upd_store t j l
+  end.
+Definition xworld := (world * store)%type.
+Definition xstep (xw : xworld) (x : xop) : xworld * option err :=
+  let (w, st) := xw in
+  match to_op st x with
+  | Some o => let (w', e) := step w o in ((w', st), e)
+  | None =>
+      match x with
+      | XCAppend k it => ((w, upd_store st k (clist_of st k ++ [it])), None)
+      | XCSet k i it => if i <? length (clist_of st k)
+                        then ((w, upd_store st k (upd (clist_of st k) i it)), None)
+                        else ((w, st), Some EIndex)
+      | XCPop k => match clist_of st k with
+                   | [] => ((w, st), Some EIndex)
+                   | l => ((w, upd_store st k (removelast l)), None)
+                   end
+      | _ => ((w, st), None)
+      end
+  end.
+Definition xwfb (xw : xworld) (x : xop) : bool :=
+  match to_op (snd xw) x with Some o => wfb (fst xw) o | None => true end.
+Definition xpreb (xw : xworld) (x : xop) : bool :=
+  match to_op (snd xw) x with Some o => preb (fst xw) o | None => true end.
+Definition xrun (xw : xworld) (xs : list xop) : xworld := fold_left (fun xw x => fst (xstep xw x)) xs xw.
+
+Definition item_code (it : item) : nat := match it with INone => 0 | INew => 1 | IReal n => 2 + n end.
+Definition hash_store (h : int) (st : store) : int :=
+  fold_left (fun h l => fold_left (fun h it => hmix h (item_code it)) l (hmix h (length l))) st (hmix h (length st)).
+Definition xflag_exact (x : xop) : bool := match x with XOp o => flag_exact o | _ => true end.
+Fixpoint xrun_hash (xw : xworld) (xs : list xop) (cmps : list bool) (h : int) : xworld * int :=
+  match xs with
+  | [] => (xw, h)
+  | x :: t => let cmp := match cmps with c :: _ => c | [] => false end in
+              let (xw', r) := xstep xw x in
+              xrun_hash xw' t (tl cmps) (hash_store (hstep h cmp (xpreb xw x) r (fst xw')) (snd xw'))
+  end.
+Definition check_xhist (w : world) (st : store) (xs : list xop) (cmps : list bool)
+           (expected : int) (final : obs) (final_store : list (list nat)) : bool :=
+  let (xw', h) := xrun_hash (w, st) xs cmps (hash_store (hash_obs 0%uint63 (observe w)) st) in
+  Uint63.eqb h expected && obs_eqb (observe (fst xw')) final
+  && list_eqb (list_eqb Nat.eqb) (map (map item_code) (snd xw')) final_store.
+Fixpoint xtrace (xw : xworld) (xs : list xop) : list (option err * bool * obs * list (list nat)) :=
+  match xs with
+  | [] => []
+  | x :: t => let (xw', r) := xstep xw x in
+              (r, xpreb xw x, observe (fst xw'), map (map item_code) (snd xw')) :: xtrace xw' t
+  end.
+
 (* a placeholder that can be reached through a port list (placeholders are shared between an outlet list
    and an inlet list by u1-u2, take_place_of, item assignment) is listed wherever it points *)
 Definition live_back_sideb (w : world) (sd : side) : bool :=
